@@ -236,9 +236,9 @@ char *igris_f32toa(float32_t f, char *buf, int8_t precision)
 
     if (isinf(f))
     {
-        *buf++ = f > 0 ? '+' : '-';
-        return strcpy(buf, "inf");
-        ;
+        *buf = f > 0 ? '+' : '-';
+        strcpy(buf + 1, "inf");
+        return buf;
     }
 
     if (isnan(f))
